@@ -66,3 +66,28 @@ pub fn lookup(prop: &str) -> Option<Runner> {
         _ => return None,
     })
 }
+
+
+/// Decode `bytes` (followed by some trailing bytes, so that a decoder that starts over has
+/// something to read) through a reader that fails once, transiently, inside the message.
+/// Giving up is fine (`Ok(None)`), resuming correctly is fine (`Ok(Some(value))`, to be compared
+/// with the clean decode by the caller); a panic is reported as `Err`.
+pub fn decode_through_flaky_reader<T, E>(
+    bytes: &[u8],
+    selector: u64,
+    decode: impl FnOnce(&mut crate::mon::FlakyReader<std::io::Cursor<Vec<u8>>>) -> Result<T, E>,
+) -> Result<Option<T>, String> {
+    if bytes.len() < 2 {
+        return Ok(None);
+    }
+    let mut stream = bytes.to_vec();
+    // what follows the message in a stream: more of the same
+    stream.extend_from_slice(&bytes[..bytes.len().min(256)]);
+    let fail_at = 1 + (crate::rng::mix(selector, 0xf1a) % (bytes.len() as u64 - 1));
+    let mut rd = crate::mon::FlakyReader::new(std::io::Cursor::new(stream), fail_at, selector);
+    match crate::mon::catch(|| decode(&mut rd)) {
+        Err(p) => Err(format!("{} {}", p.signature(), p.message)),
+        Ok(Err(_)) => Ok(None),
+        Ok(Ok(v)) => Ok(Some(v)),
+    }
+}
